@@ -4,6 +4,7 @@ import (
 	"bytes"
 	"fmt"
 	"io"
+	"sort"
 	"strings"
 
 	"filippo.io/age"
@@ -84,7 +85,31 @@ func runC13(cx *ctx) {
 		if err != nil {
 			panic(err)
 		}
+		// every k-th offset, and ALWAYS the offsets around the structural boundaries of the armor: the end of the BEGIN line, the
+		// line break in front of the END line, the END line itself
+		offs := map[int]bool{}
 		for o := 0; o <= len(probe); o += cx.n(7, 1) {
+			offs[o] = true
+		}
+		if i := bytes.IndexByte(probe, '\n'); i >= 0 {
+			for d := -1; d <= 2; d++ {
+				offs[i+d] = true
+			}
+		}
+		if i := bytes.LastIndex(probe, []byte("-----END")); i >= 0 {
+			for d := -3; d <= 2; d++ {
+				offs[i+d] = true
+			}
+			offs[len(probe)-1], offs[len(probe)] = true, true
+		}
+		var offList []int
+		for o := range offs {
+			if o >= 0 && o <= len(probe) {
+				offList = append(offList, o)
+			}
+		}
+		sort.Ints(offList)
+		for _, o := range offList {
 			for mode := 0; mode < 4; mode++ {
 				o, mode := o, mode
 				rr2 := rr.Fork()
